@@ -280,8 +280,8 @@ class FuncFacts:
 
         def note(t, v, st):
             if isinstance(t, ast.Name):
-                if isinstance(v, ast.Constant) and isinstance(v.value, bool):
-                    defs.setdefault(t.id, []).append((v.value, st))
+                if isinstance(v, ast.Constant) and (isinstance(v.value, bool) or v.value is None):
+                    defs.setdefault(t.id, []).append((v.value, st))      # True / False / None (a three-valued verdict)
                 elif isinstance(v, ast.Name):
                     copies.setdefault(t.id, []).append(v.id)     # a plain copy of another (possibly literal) flag
                     defs.setdefault(t.id, [])
@@ -659,15 +659,24 @@ class FuncFacts:
         t, pos = test, positive
         while isinstance(t, ast.UnaryOp) and isinstance(t.op, ast.Not):
             t, pos = t.operand, not pos
+        none_test = None
+        if isinstance(t, ast.Compare) and len(t.ops) == 1 and isinstance(t.left, ast.Name) and t.left.id in self.const_flags \
+                and isinstance(t.comparators[0], ast.Constant) and t.comparators[0].value is None and isinstance(t.ops[0], (ast.Is, ast.IsNot)):
+            # `verdict is None` / `verdict is not None` on a three-valued literal flag
+            none_test = isinstance(t.ops[0], ast.Is) == pos       # True: the flag IS None on this branch
+            t = t.left
         if isinstance(t, ast.Name) and t.id in self.const_flags:
-            sites = [st for val, st in self.const_flags[t.id] if val is pos]
+            if none_test is None:
+                sites = [st for val, st in self.const_flags[t.id] if (val is True) == pos and (pos or val is not True)]
+            else:
+                sites = [st for val, st in self.const_flags[t.id] if (val is None) == none_test]
             if sites and all(id(st) in self.info for st in sites):
                 common = None
                 for st in sites:
                     fs = [f for f in self.info[id(st)].facts]
                     common = fs if common is None else [f for f in common if f in fs]
                 # the opaque atom about the literal itself is replaced by what it stands for, plus a marker naming the flag
-                out = [a for a in out if not (a[0] in ("truthy", "falsy") and a[2] is None and re.fullmatch(r"(?:__phi__\()?(?:True|False)(?:, (?:True|False))*\)?", a[1]))]
+                out = [a for a in out if not (a[0] in ("truthy", "falsy", "is", "isnot") and re.fullmatch(r"(?:__phi__\()?(?:True|False|None)(?:, (?:True|False|None))*\)?", a[1]))]
                 for f in common or []:
                     if f not in out:
                         out.append(f)
